@@ -119,7 +119,7 @@ func runPackage(p Package) (methods int, msg string) {
 				if e != "" {
 					return methods, fmt.Sprintf("method %s: %s", m.Name, e)
 				}
-			case <-time.After(10 * time.Second):
+			case <-time.After(120 * time.Second): // generous: only a real hang ends here
 				return methods, fmt.Sprintf("method %s: round trip did not complete (shape not recognised by the dispatcher?)", m.Name)
 			}
 		}
